@@ -313,7 +313,7 @@ impl World {
             net: NetCfg::clean(),
             os: OsCfg::default(),
             stats: Stats::default(),
-            op_budget: 200_000,
+            op_budget: 50_000,
             eof_read_budget: 40_000_000,
             http: None,
             send_counter: 0,
